@@ -205,7 +205,7 @@ func fingerprint(d lintcmd.VerifC10Diag) int64 {
 		return 0
 	}
 	h := sha1.Sum([]byte(fmt.Sprintf("%#v|%#v|%#v|%d|%q|%d", d.End, d.SuggestedFixes, d.Related, d.MergeIf, d.BuildName, d.Position.Offset)))
-	return int64(binary.BigEndian.Uint64(h[:8]) >> 17)
+	return int64(binary.BigEndian.Uint64(h[:8]) >> 34)
 }
 
 func toDiag(d lintcmd.VerifC10Diag) Diag {
